@@ -19,12 +19,6 @@ static inline void stub_fail(xrl_error **err) {
   __CPROVER_assume(ERR_CODE_OK(c));
   stub_set(err, (xrl_error_code)c);
 }
-#ifdef V_RESTRICT_LEAVES
-/* refutation acceleration (DESIGN 3.6): a model under an extra constraint is still a model */
-#define V_STUB_RESTRICT(v) __CPROVER_assume((v) == 0.25 || (v) == 0.5 || (v) == 1.0 || (v) == 2.0 || (v) == 0.0)
-#else
-#define V_STUB_RESTRICT(v)
-#endif
 #define GHOST_RESET() do { g_fail = 0; g_nerr = 0; } while (0)
 #define ND_ERRSLOT(error) xrl_error *error##_obj = NULL; ND_BOOL(error##_present); xrl_error **error = error##_present ? &error##_obj : NULL; g_watch = error
 #define ERRSLOT_DONE(error)
